@@ -123,9 +123,9 @@ func (c ConditionFunction) Evaluate(a interface{}, b interface{}) (bool, error) 
 	case ConditionExcludes:
 		switch x.Kind() {
 		case reflect.Slice:
-			return !sliceContains(x, y), nil
+			return sliceExcludes(x, y), nil
 		case reflect.Map:
-			return !mapContains(x, y), nil
+			return mapExcludes(x, y), nil
 		case reflect.Ptr:
 			// an optional value is a set with zero or one element
 			return y.IsNil() || x.IsNil() || x.Elem().Interface() != y.Elem().Interface(), nil
@@ -200,6 +200,29 @@ func sliceContains(x, y reflect.Value) bool {
 			}
 		}
 		if !found {
+			return false
+		}
+	}
+	return true
+}
+
+// sliceExcludes returns whether x contains none of the elements of y
+func sliceExcludes(x, y reflect.Value) bool {
+	for i := 0; i < y.Len(); i++ {
+		if sliceContains(x, y.Slice(i, i+1)) {
+			return false
+		}
+	}
+	return true
+}
+
+// mapExcludes returns whether x contains none of the key-value pairs of y
+func mapExcludes(x, y reflect.Value) bool {
+	iter := y.MapRange()
+	for iter.Next() {
+		pair := reflect.MakeMapWithSize(y.Type(), 1)
+		pair.SetMapIndex(iter.Key(), iter.Value())
+		if mapContains(x, pair) {
 			return false
 		}
 	}
